@@ -1842,10 +1842,34 @@ func dropEmptyText(n *Node) {
 	n.Kids = ks
 }
 
+// avoidN01AcrossNodes: adjacent text nodes are one run of character data for the minifier; apply the N01
+// separation (and the ampersand hygiene of fixAmp) across the node boundary too.
+func avoidN01AcrossNodes(n *Node) {
+	if n.RawText {
+		return
+	}
+	for i, k := range n.Kids {
+		if k.Kind == KElem {
+			avoidN01AcrossNodes(k)
+		}
+		if i == 0 || k.Kind != KText || n.Kids[i-1].Kind != KText || k.Text == "" || n.Kids[i-1].Text == "" {
+			continue
+		}
+		prev := n.Kids[i-1]
+		joined := fixAmp(avoidN01(prev.Text + k.Text))
+		if joined != prev.Text+k.Text {
+			// keep the node split where it was as far as possible: put everything into the first node
+			prev.Text = joined
+			k.Text = ""
+		}
+	}
+}
+
 // Finish must be called on every generated tree.
 func (g *Gen) Finish(root *Node) {
 	g.finish(root)
 	if !g.Known {
+		avoidN01AcrossNodes(root)
 		g.avoidSpaceEaters(root, nil, nil)
 		dropEmptyText(root)
 	}
